@@ -492,6 +492,56 @@ MOP(bsa) {
     return run_sa<blk::BBackend>(*D, cfg, ShowBlock());
 }
 
+// ---------------------------------------------------------------- the smoothers under MPI, on their own
+// relax  <type=T k=v ...> -- A parts f x
+// brelax <type=T k=v ...> -- <b> A(block crs) parts f x
+//   amgcl::runtime::mpi::relaxation::wrapper<Backend> built through the property-tree interface exactly as mpi::amg and
+//   mpi::relaxation::as_preconditioner build it: on the distributed matrix BEFORE move_to_backend, applied afterwards.
+//   ONE object; every rank reports, each started from ITS slice of x:
+//     pre=  x after apply_pre(A, f, x, tmp)      post=  x after apply_post(A, f, x, tmp)
+//     apply= x after apply(A, f, x)              ones=  x after apply(A, 1, x)   (for spai0 / damped_jacobi: the
+//                                                        constructor's vector M / dia itself)
+//     seq=  x after apply_pre followed by apply_post on the same vector (the object and tmp are reused)
+template <class W, class DMat, class Vec>
+static std::string run_relax(W &S, DMat &D, const Vec &fl, const Vec &xl, const Vec &ones, std::string (*shw)(const Vec&)) {
+    std::ostringstream os;
+    Vec tmp(fl.size());
+    for (auto &v : tmp) v = amgcl::math::zero<typename Vec::value_type>();
+    { Vec x = xl; S.apply_pre(D, fl, x, tmp);  os << "pre=" << shw(x); }
+    { Vec x = xl; S.apply_post(D, fl, x, tmp); os << " post=" << shw(x); }
+    { Vec x = xl; S.apply(D, fl, x);           os << " apply=" << shw(x); }
+    { Vec x = xl; S.apply(D, ones, x);         os << " ones=" << shw(x); }
+    { Vec x = xl; S.apply_pre(D, fl, x, tmp); S.apply_post(D, fl, x, tmp); os << " seq=" << shw(x); }
+    return os.str();
+}
+static std::string show_dvec(const std::vector<double> &v) { return show(v); }
+MOP(relax) {
+    std::string cls; ptree prm = config(t, cls);
+    auto A = t.crsT<double>(); Parts p = parts(t);
+    std::vector<double> f = t.vecT<double>(), x0 = t.vecT<double>();
+    std::vector<double> fl = slice(f, p), xl = slice(x0, p), ones(fl.size(), 1.0);
+    auto D = dist(*A, p, p);
+    quiet_cout q;
+    amgcl::runtime::mpi::relaxation::wrapper<Backend> S(*D, prm);
+    D->move_to_backend();
+    return run_relax(S, *D, fl, xl, ones, show_dvec);
+}
+MOP(brelax) {
+    std::string cls; ptree prm = config(t, cls);
+    long b = t.i(); if (b != blk::N) return "UNSUPPORTED-BLOCK-SIZE";
+    auto A = blk::bcrs(t); Parts p = parts(t);
+    std::vector<blk::Rh> f = blk::bvec(t), x0 = blk::bvec(t);
+    if ((long)f.size() != p.total || (long)x0.size() != p.total) throw std::runtime_error("vector size");
+    std::vector<blk::Rh> fl(f.begin() + p.b(world.rank), f.begin() + p.e(world.rank)), xl(x0.begin() + p.b(world.rank), x0.begin() + p.e(world.rank));
+    blk::Rh one; for (int c = 0; c < blk::N; ++c) one(c) = 1.0;
+    std::vector<blk::Rh> ones(fl.size(), one);
+    auto D = blk::dist(*A, p);
+    quiet_cout q;
+    amgcl::runtime::mpi::relaxation::wrapper<blk::BBackend> S(*D, prm);
+    D->move_to_backend();
+    return run_relax(S, *D, fl, xl, ones, blk::show_bvec);
+}
+
 // ---------------------------------------------------------------- main loop
 int main(int argc, char **argv) {
     MPI_Init(&argc, &argv);
